@@ -417,7 +417,42 @@ type result struct {
 	tagsAfter []string // Tags(last) for the last of the operation
 }
 
+// ---------- watchdog: no case may hang ----------
+// Every operation marks progress; the history in flight registers how to replay itself.  A store
+// that wedges (lock bug, lost wake-up) stops the marks: after wedgeAfter the watchdog turns the
+// wedge into an oracle failure with that replay and ends the run.
+var (
+	lastProgress atomic.Int64
+	inFlight     atomic.Value // *histSpec
+	wedgeAfter   = 25 * time.Second
+)
+
+func progress() { lastProgress.Store(time.Now().UnixNano()) }
+
+func startWatchdog() {
+	progress()
+	go func() {
+		for {
+			time.Sleep(time.Second)
+			if time.Since(time.Unix(0, lastProgress.Load())) < wedgeAfter {
+				continue
+			}
+			h, _ := inFlight.Load().(*histSpec)
+			rep := map[string]any{"note": "no history in flight"}
+			kind := "?"
+			if h != nil {
+				kind = h.Kind
+				rep = map[string]any{"store": h.Kind, "mode": h.Mode, "hseed": h.HSeed, "nops": h.NOps, "threads": h.Thr}
+			}
+			run.OracleFail(run.NewID(), "wedged", fmt.Sprintf("store=%s: no operation completed for %s (a store operation hangs)", kind, wedgeAfter), rep)
+			run.Finish()
+			os.Exit(0)
+		}
+	}()
+}
+
 func (u *universe) apply(t target, o Op) result {
+	defer progress()
 	switch o.K {
 	case "P":
 		err := t.Push(ctx, u.descOf(o), bytes.NewReader(u.payload(o)))
@@ -1224,6 +1259,9 @@ type histSpec struct {
 // ---------- sequential histories ----------
 
 func seqHistory(h histSpec) {
+	hh := h
+	inFlight.Store(&hh)
+	progress()
 	ociAutoSave = h.HSeed%3 != 0
 	if h.Kind == "oci" {
 		run.Count(fmt.Sprintf("oci/AutoSaveIndex=%v", ociAutoSave))
@@ -1329,6 +1367,9 @@ type event struct {
 }
 
 func concHistory(h histSpec) {
+	hh := h
+	inFlight.Store(&hh)
+	progress()
 	r := common.NewRand(h.HSeed)
 	u := genUniverse(r, h.Kind, true)
 	threads := make([][]Op, h.Thr)
@@ -1510,6 +1551,9 @@ func (gr *gatedReader) Read(p []byte) (int, error) {
 // held back until every one of them is inside Push.  Exactly one push may succeed on the
 // stores whose commit is an atomic LoadOrStore (memory store, file-store fallback).
 func raceRound(h histSpec) {
+	hh := h
+	inFlight.Store(&hh)
+	progress()
 	r := common.NewRand(h.HSeed)
 	u := genUniverse(r, h.Kind, true)
 	t, cleanup := newStore(h.Kind)
@@ -1542,6 +1586,7 @@ func raceRound(h histSpec) {
 				defer wg.Done()
 				inv := int(clock.Add(1))
 				err := t.Push(ctx, u.descOf(o), &gatedReader{r: bytes.NewReader(u.payload(o)), g: g})
+				progress()
 				resp := int(clock.Add(1))
 				evs[k] = event{k, inv, resp, o, result{tok: errTok(err), err: err}}
 			}(k)
@@ -1589,6 +1634,7 @@ func min(a, b int) int {
 func main() {
 	run = common.Start("C06")
 	defer run.Finish()
+	startWatchdog()
 	run.Rule = "distinct operation histories (store kind + operation tokens); every history mixes pushes (valid, repeated, mismatching), tags, re-tags, resolves, missing content and empty references"
 	if run.Replay != "" {
 		for _, c := range common.ReadReplay(run.Replay) {
